@@ -53,6 +53,9 @@ CLAIMED = {
     'C10': dict(cat='proof', technique='Coq theorems on a Gallina model of the calculator (pest Pratt algorithm + operator table + ?: encoding): all 289 operator pairs grouped as in C for all operand values, unary binds tightest, truth values, division + exact correspondence with parse_calc + reference C evaluator on random expressions',
                 text='Precedence/associativity of the calculator is proved equal to C for every pair of binary operators and all operand values (the == / relational merge is refuted and listed), with the model compared to the real calculator on thousands of random token sequences and all pairs each run; a reference C evaluator checks random expressions printed with minimal parentheses, literals in every form, and constants folded inside statements.',
                 ref='DESIGN.md section 6 C10'),
+    'C17': dict(cat='proof', technique='Coq theorems on the asm() model (per-mnemonic port offsets) and on the split-port memory of the 6502 semantics + exhaustive asm() correspondence + co-execution with the split-port memory model switched on against the ordinary-variable twin',
+                text='Stores get the write port and every other mnemonic the read port for superchip / 3E / 3E+ variables, ordinary variables none: proved on the model compared exhaustively with asm(); a value written through the write port is read back through the read port and wrong-port accesses fault (memory model theorems); generated programs with random superchip variables are co-executed with faults enabled and must end like their ordinary twin.',
+                ref='DESIGN.md section 6 C17'),
 }
 
 NOT_YET = {}
